@@ -171,7 +171,9 @@ def _stratify_circuit(
             for key in protocols.measurement_key_objs(op):
                 measurement_time_index[key] = time_index
             for key in protocols.control_keys(op):
-                control_time_index[key] = time_index
+                # Controls on one key do not depend on each other: a later one may have been
+                # placed earlier, and the latest one is what a following measurement must pass.
+                control_time_index[key] = max(control_time_index.get(key, -1), time_index)
 
     return circuits.Circuit(circuits.Moment(moment) for moment in new_moments if moment)
 
